@@ -46,13 +46,44 @@ CONTENTS = {
 EXCL = ["none", "config", "gitignore"]
 OTHER_VERSION = "0.0.0"
 
+# (C) "near" edits: modifications that a checksum taken over anything but the file's bytes does not see. The base files are bytes
+# (the Python one is Latin-1: not valid UTF-8); every variant changes what a from-scratch scan reports (a line number, a name).
+_NB_PY = ("# caf\xe9 header\n" + harness.py_function("caf\xe9_fn", 6)).encode("latin-1")
+_NB_JS = ("// header\n" + harness.js_function("shortFn", 5)).encode()
+
+
+def _near(base: bytes, which: str) -> bytes:
+    lines = base.split(b"\n")
+    if which == "blank-line-top":
+        return b"\n" + base
+    if which == "blank-line-after-header":
+        return b"\n".join(lines[:1] + [b""] + lines[1:])
+    if which == "trailing-blanks-and-blank-line":
+        return b"\n".join([lines[0] + b"   ", b"   "] + lines[1:])
+    if which == "name-case":
+        return base.replace(b"_fn", b"_FN").replace(b"shortFn", b"ShortFn")
+    if which == "other-invalid-byte":
+        return base.replace(b"\xe9", b"\xe8") if b"\xe9" in base else base.replace(b"shortFn", b"sh\xf8rtFn")
+    if which == "comment-line-added":
+        return lines[0] + b"\n" + (b"# more" if base is _NB_PY else b"// more") + b"\n" + b"\n".join(lines[1:])
+    raise ValueError(which)
+
+
+NEAR_EDITS = ["blank-line-top", "blank-line-after-header", "trailing-blanks-and-blank-line", "name-case", "other-invalid-byte", "comment-line-added"]
+
+
 
 def content(path, cid):
-    return CONTENTS[cid][path.rsplit(".", 1)[1]]
+    ext = path.rsplit(".", 1)[1]
+    if cid == "nb":
+        return _NB_PY if ext == "py" else _NB_JS
+    if cid.startswith("nv:"):
+        return _near(_NB_PY if ext == "py" else _NB_JS, cid[3:])
+    return CONTENTS[cid][ext]
 
 
 def md5(text):
-    return hashlib.md5(text.encode("utf-8")).hexdigest()
+    return hashlib.md5(text if isinstance(text, bytes) else text.encode("utf-8")).hexdigest()
 
 
 def selected(files, excl):
@@ -96,9 +127,9 @@ class AnalyzeCounter:
         self.real = Scanner._analyze_file
         self.seen = []
 
-        def wrapped(path, rel_path, checksum, lexer):
+        def wrapped(path, rel_path, *a, **kw):
             self.seen.append(str(rel_path))
-            return self.real(path, rel_path, checksum, lexer)
+            return self.real(path, rel_path, *a, **kw)
 
         Scanner._analyze_file = wrapped
         return self
@@ -313,6 +344,17 @@ def _block(block, agg):
             if new_doc is not None:
                 res.append(new_doc)
         agg.newdocs = getattr(agg, "newdocs", []) + res
+    elif kind == "near":
+        _, p, other, edit = block
+        for first, second in (("nb", "nv:" + edit), ("nv:" + edit, "nb")):
+            seq = [("write", other, "nb"), ("write", p, first), ("scan",), ("write", p, second), ("scan",), ("scan",)]
+            viol, n_scans = run_history([p, other], [first, second], seq)
+            case = {"part": "history", "paths": [p, other], "contents": [first, second], "ops": [list(o) for o in seq]}
+            agg.case({"ops": [list(o) for o in seq]}, True, "ok" if not viol else viol[0][0], sample=False)
+            agg.transitions += n_scans
+            agg.extra["near_edit_scans"] += n_scans
+            for k, sig, d in viol or []:
+                agg.violation(k, dict({kk: vv for kk, vv in sig.items() if kk != "at_step"}, edit=edit), case, d)
     else:
         _, paths, cids, prefix, depth = block
         run_histories(paths, cids, prefix, depth, agg)
@@ -526,6 +568,11 @@ def run(ctx: core.Ctx):
     # (B) histories
     ops = history_ops(hist_paths, hist_cids)
     blocks = [("hist", hist_paths, hist_cids, [i], hist_depth) for i in range(len(ops))]
+    # (C) near edits, both directions, on a Latin-1 Python file and a JavaScript file
+    for p, other in (("a.py", "d/c.js"), ("d/c.js", "a.py")):
+        for edit in NEAR_EDITS:
+            blocks.append(("near", p, other, edit))
+    ctx.bounds["near_edits"] = NEAR_EDITS
     ctx.run_blocks(_block, blocks)
 
 
